@@ -1372,6 +1372,13 @@ func main() {
 	writeIfChanged(filepath.Join(*out, "GenWaitSites.v"), w.Bytes())
 	fmt.Printf("go2v: GenWaitSites.v %d wait sites in %d functions\n", nw, nf)
 
+	// GenCtxSites.v (C20): every consumer of a context's end with the error it returns (ctxsites.go)
+	w.Reset()
+	fmt.Fprintf(&w, header, *repo)
+	ncx := root.ctxSitesSafe(&w, *repo)
+	writeIfChanged(filepath.Join(*out, "GenCtxSites.v"), w.Bytes())
+	fmt.Printf("go2v: GenCtxSites.v %d context-end branches\n", ncx)
+
 	// GenLockProgs.v (C05): lock programs, mutex table, lock acquisitions of the call path (lockprogs.go)
 	w.Reset()
 	fmt.Fprintf(&w, header, *repo)
